@@ -385,7 +385,13 @@ func firstDiff(a, b []byte) int {
 }
 
 // runC03 feeds an encoded inbound stream to a fresh library connection.
-func runC03(t fataler, mode c03Mode, frames []ref.Frame, stream []byte, sizes []int, maxRead int, bufSize int, limit int64, intended [][]byte) string {
+// c03Pause: the peer goes quiet for D (virtual time) after the first Off bytes of the stream.
+type c03Pause struct {
+	Off int
+	D   time.Duration
+}
+
+func runC03(t fataler, mode c03Mode, frames []ref.Frame, stream []byte, sizes []int, maxRead int, bufSize int, limit int64, intended [][]byte, pause ...c03Pause) string {
 	e := newEnv(t)
 	defer e.Teardown()
 	lc, err := e.open(connSpec{Client: mode.Client, Mode: mode.Mode, Ext: mode.Ext})
@@ -399,8 +405,21 @@ func runC03(t fataler, mode c03Mode, frames []ref.Frame, stream []byte, sizes []
 	if maxRead > 0 {
 		lc.End.SetPeerMaxRead(maxRead)
 	}
-	lc.End.WriteChunks(stream, sizes)
-	lc.End.CloseWrite(nil)
+	if len(pause) > 0 && pause[0].D > 0 && pause[0].Off <= len(stream) {
+		// the reader below sits in one Read / Reader call for the whole pause
+		pz := pause[0]
+		e.Go(func() {
+			lc.End.WriteChunks(stream[:pz.Off], sizes)
+			if !e.sleep(pz.D) {
+				return
+			}
+			lc.End.WriteChunks(stream[pz.Off:], nil)
+			lc.End.CloseWrite(nil)
+		})
+	} else {
+		lc.End.WriteChunks(stream, sizes)
+		lc.End.CloseWrite(nil)
+	}
 	var tr readTrace
 	done := e.Call(func() {
 		tr = readAllMsgs(lc.C, func() int { return bufSize }, len(frames)+2)
@@ -419,7 +438,7 @@ func runC03(t fataler, mode c03Mode, frames []ref.Frame, stream []byte, sizes []
 
 func TestC03(t *testing.T) {
 	rec := evid.For("C03")
-	rec.Rule = "rapid-generated inbound streams from an independent encoder: 1-5 messages with drawn fragmentation (incl. empty fragments, runs of 20-300 empty continuation frames, cuts inside compressed payloads), foreign deflater variants (sync, BFINAL=1+00, stored, multi-flush, levels), interleaved Ping/Pong at every position, 0-2 injected violations or a valid Close, non-minimal lengths (comparison stops there), over 9 (role, negotiated compression) settings obtained through the real handshake, transport chunking down to 1 byte, read buffer sizes 1..100000; compared with the reference receiver. Non-trivial: a control frame inside a fragmented message, or an injected violation/Close, or a compressed message in >=2 fragments. distinct = hash(mode, frame shape sequence, violation kinds, chunking kind)."
+	rec.Rule = "rapid-generated inbound streams from an independent encoder: 1-5 messages with drawn fragmentation (incl. empty fragments, runs of 20-300 empty continuation frames, cuts inside compressed payloads), foreign deflater variants (sync, BFINAL=1+00, stored, multi-flush, levels), interleaved Ping/Pong at every position, 0-2 injected violations or a valid Close, non-minimal lengths (comparison stops there), over 9 (role, negotiated compression) settings obtained through the real handshake, transport chunking down to 1 byte, in a quarter of the cases a quiet period of 6 or 20 s (virtual) before a drawn frame while the reader waits, read buffer sizes 1..100000; compared with the reference receiver. Non-trivial: a control frame inside a fragmented message, or an injected violation/Close, or a compressed message in >=2 fragments. distinct = hash(mode, frame shape sequence, violation kinds, chunking kind)."
 	rapid.Check(t, func(rt *rapid.T) {
 		mode := rapid.SampledFrom(c03Modes).Draw(rt, "mode")
 		deflate := mode.Mode != websocket.CompressionDisabled
@@ -434,9 +453,18 @@ func TestC03(t *testing.T) {
 			frames, got = injectViolation(rt, frames, k, pos, deflate)
 			kinds = append(kinds, got)
 		}
-		frames, stream, _ := finishMasking(frames, mode.Client)
+		frames, stream, ends := finishMasking(frames, mode.Client)
 		chunk, sizes := drawChunks(rt, len(stream))
 		buf := drawBufSize(rt)
+		var pause c03Pause
+		if len(ends) > 0 && rapid.IntRange(0, 3).Draw(rt, "quietPeriod") == 0 {
+			// the peer goes quiet for longer than any of the library's internal timeouts, at a frame boundary
+			k := rapid.IntRange(0, len(ends)-1).Draw(rt, "quietBeforeFrame")
+			if k > 0 {
+				pause.Off = ends[k-1]
+			}
+			pause.D = rapid.SampledFrom([]time.Duration{6 * time.Second, 20 * time.Second}).Draw(rt, "quietFor")
+		}
 		limit := rapid.SampledFrom([]int64{-1, 1 << 20}).Draw(rt, "limit")
 		intended := make([][]byte, len(msgs))
 		for i := range msgs {
@@ -447,7 +475,7 @@ func TestC03(t *testing.T) {
 		}
 		var msg string
 		rapid.SyncTest(rt, func(rt *rapid.T) {
-			msg = runC03(rt, mode, frames, stream, sizes, 0, buf, limit, intended)
+			msg = runC03(rt, mode, frames, stream, sizes, 0, buf, limit, intended, pause)
 		})
 		// classification
 		ctlInside, compFrag := false, false
@@ -469,6 +497,9 @@ func TestC03(t *testing.T) {
 			shape += "|" + k
 		}
 		classes := []string{"mode:" + mode.Name, "chunk:" + chunk}
+		if pause.D > 0 {
+			classes = append(classes, "peer-quiet-for-6s-or-more-before-a-frame")
+		}
 		for _, k := range kinds {
 			classes = append(classes, "inject:"+k)
 		}
